@@ -24,30 +24,32 @@ inductive D1
   | need                                  -- not even a complete header
   | frame (f : Frame) (total : Nat)       -- f.partial = false: `total` bytes consumed; else header only
 
+/-- one frame given the first two bytes, the declared length and the header length without mask key -/
+def mkD1 (b : Bytes) (x0 x1 : UInt8) (declared hl : Nat) (topbit : Bool) : D1 :=
+  let masked := x1.toNat ≥ 128
+  let hl := if masked then hl + 4 else hl
+  let f : Frame := { fin := x0.toNat ≥ 128, r1 := x0.toNat / 64 % 2 == 1, r2 := x0.toNat / 32 % 2 == 1,
+                     r3 := x0.toNat / 16 % 2 == 1, masked, op := x0.toNat % 16, topbit, declared }
+  if topbit then .frame { f with «partial» := true } 0
+  else if b.length < hl + declared then .frame { f with «partial» := true } 0
+  else
+    let raw := (b.drop hl).take declared
+    let key := (b.drop (hl - 4)).take 4
+    .frame { f with payload := if masked then maskSpec key raw else raw } (hl + declared)
+
 /-- §5.2 base framing: decode one frame from the front of a byte string -/
 def decode1 (b : Bytes) : D1 :=
   match b with
   | x0 :: x1 :: rest =>
-    let mk (declared hl : Nat) (topbit : Bool) : D1 :=
-      let masked := x1.toNat ≥ 128
-      let hl := if masked then hl + 4 else hl
-      let f : Frame := { fin := x0.toNat ≥ 128, r1 := x0.toNat / 64 % 2 == 1, r2 := x0.toNat / 32 % 2 == 1,
-                         r3 := x0.toNat / 16 % 2 == 1, masked, op := x0.toNat % 16, topbit, declared }
-      if topbit then .frame { f with «partial» := true } 0
-      else if b.length < hl + declared then .frame { f with «partial» := true } 0
-      else
-        let raw := (b.drop hl).take declared
-        let key := (b.drop (hl - 4)).take 4
-        .frame { f with payload := if masked then maskSpec key raw else raw } (hl + declared)
     let l7 := x1.toNat % 128
     if l7 == 126 then
-      if rest.length < 2 then .need else mk (beDec (rest.take 2)) 4 false
+      if rest.length < 2 then .need else mkD1 b x0 x1 (beDec (rest.take 2)) 4 false
     else if l7 == 127 then
       if rest.length < 8 then .need
       else
         let v := beDec (rest.take 8)
-        mk v 10 (v ≥ 2 ^ 63)
-    else mk l7 2 false
+        mkD1 b x0 x1 v 10 (v ≥ 2 ^ 63)
+    else mkD1 b x0 x1 l7 2 false
   | _ => .need
 
 /-- split a byte stream into frames; a trailing incomplete header is dropped, a trailing frame with a complete
